@@ -12,6 +12,10 @@ On the unrepaired tree (`length > 64`) this is false at 64 — defect D1. -/
 theorem label_ok (n : Nat) (h : label_too_long n = false) : n < 64 := by
   simp [label_too_long] at h; omega
 
+/-- labels of 64 bytes and more are rejected -/
+theorem label_long_rejected (n : Nat) (h : 63 < n) : label_too_long n = true := by
+  simp [label_too_long]; omega
+
 theorem label_short_accepted (n : Nat) (h : n ≤ 63) : label_too_long n = false := by
   simp [label_too_long]; omega
 
